@@ -441,7 +441,7 @@ func isAlnum(c byte) bool {
 	return (c >= '0' && c <= '9') || (c >= 'a' && c <= 'z') || (c >= 'A' && c <= 'Z')
 }
 
-// boundaries: the positions 0 < k < len(v) next to a punctuation byte (at most the first 8 and the last 4)
+// boundaries: the positions 0 < k < len(v) next to a punctuation byte (at most the first 5 and the last 3)
 func boundaries(v string) []int {
 	var out []int
 	for k := 1; k < len(v); k++ {
@@ -449,11 +449,14 @@ func boundaries(v string) []int {
 			out = append(out, k)
 		}
 	}
-	if len(out) > 12 {
-		out = append(append([]int(nil), out[:8]...), out[len(out)-4:]...)
+	if len(out) > 8 {
+		out = append(append([]int(nil), out[:5]...), out[len(out)-3:]...)
 	}
 	return out
 }
+
+// boundaryPayloads: what is inserted at the grammar boundaries
+var boundaryPayloads = []string{";", "{", "}", "\"", "\\", " #", "\n;"}
 
 // shapePool: values of different grammatical shapes.  For every attacked leaf the REAL validator says which of them
 // the field accepts; the accepted ones (unless the field accepts nearly everything: free text) become additional base
@@ -823,6 +826,7 @@ func inventory(covered map[string]bool, annCovered map[string]bool) Inventory {
 // RegexRec carries the verdicts of one REAL validator regular expression on a corpus; Rocq evaluates the
 // hand transcription (Tmpl.Validators) on the same strings.
 type RegexRec struct {
+	Upper  bool       `json:"upper,omitempty"` // the model is an upper bound (the real validator is a parser)
 	Rec    string     `json:"rec"`    // "regex"
 	Name   string     `json:"name"`   // key of Tmpl.Validators.validator_regexes
 	Source string     `json:"source"` // the Go variable
@@ -843,6 +847,9 @@ var regexSamples = map[string][]string{
 	"realm": {"", "My Realm", "a\\\"b"}, "jwt_token": {"$http_token", "$a\\b"}, "return_type": {"text/plain", "a\\;b"},
 	"grpc_service": {"", "my.Service"}, "ts_hash": {"hash x", "hash ${remote_addr} consistent"}, "size": {"10", "8k"}, "offset": {"10", "2g"},
 	"rate": {"10r/s", "1r/M"}, "proxy_buffers": {"4 8k"}, "time": {"30s", "1h 30m", "5ms"},
+	// upper bounds: near misses that the real validator rejects today are perturbed as well
+	"ip_or_cidr_upper": {"10.0.0.1", "10.0.0.0/8", "2001:db8::1", "2001:db8::/32", "fe80::1%0", "fe80::1%eth0", "::ffff:1.2.3.4"},
+	"route_path_upper": {"/a-b", "=/a", "~ ^/a", "~^/a", "~* ^/a", "~*^/a[0-9]"},
 	"limit_req_key": {"${binary_remote_addr}", "$a", "a${b_1}c$d"}, "ing_rate": {"10r/s", "7r/m"}, "http_header_name": {"X-Api-Key", "a"},
 }
 
@@ -855,6 +862,11 @@ func regexRecords() []RegexRec {
 	}
 	// the header-name expression lives (unexported) in k8s.io/apimachinery; IsHTTPHeaderName is its only use
 	all["http_header_name@apimachinery.IsHTTPHeaderName"] = func(s string) bool { return len(k8svalidation.IsHTTPHeaderName(s)) == 0 }
+	upper := map[string]bool{}
+	for k, v := range validation.VerifC06UpperMatchers() {
+		all[k] = v
+		upper[k] = true
+	}
 	var keys []string
 	for k := range all {
 		keys = append(keys, k)
@@ -863,10 +875,10 @@ func regexRecords() []RegexRec {
 	var out []RegexRec
 	for _, k := range keys {
 		parts := strings.SplitN(k, "@", 2)
-		r := RegexRec{Rec: "regex", Name: parts[0], Source: parts[1]}
+		r := RegexRec{Rec: "regex", Name: parts[0], Source: parts[1], Upper: upper[k]}
 		match := all[k]
 		for _, smp := range regexSamples[parts[0]] {
-			if !match(smp) {
+			if !match(smp) && !upper[k] {
 				continue
 			}
 			for mode := 0; mode < 2; mode++ {
@@ -890,6 +902,36 @@ func regexRecords() []RegexRec {
 		out = append(out, r)
 	}
 	return out
+}
+
+// GenPathRec: the real generatePath on a corpus of route paths (Rocq evaluates the model Validators.gen_path)
+type GenPathRec struct {
+	Rec string  `json:"rec"` // "genpath"
+	In  [][]int `json:"in"`
+	Out [][]int `json:"out"`
+}
+
+func genPathRecord() GenPathRec {
+	r := GenPathRec{Rec: "genpath"}
+	seen := map[string]bool{}
+	add := func(s string) {
+		if !seen[s] {
+			seen[s] = true
+			r.In = append(r.In, bytesOf(s))
+			r.Out = append(r.Out, bytesOf(configs.VerifC06GeneratePath(s)))
+		}
+	}
+	for _, b := range []string{"", "/", "/tea", "=/tea", "~ ^/tea", "~* ^/tea", "~^/tea", "~*^/tea", "~", "~*", "~ ", "~* ", "~  ^/two", "~*  x", "~/p", "~*/p", "~ *", "*~ x", " ~ x", "~^/t/[a-z]{2}", "~*^/t/\\d{3}"} {
+		add(b)
+		for _, p := range contextPayloads {
+			add(b + p)
+			if len(b) > 1 {
+				add(b[:1] + p + b[1:])
+				add(b[:2] + p + b[2:])
+			}
+		}
+	}
+	return r
 }
 
 // ---------------------------------------------------------------- main
@@ -968,7 +1010,7 @@ func runJob(e *env, fi int, fx Fixture, plus bool, rng *vh.Rng, thorough bool, b
 			}
 			payloads := corePayloads
 			lite := false
-			wantShapes := thorough
+			wantShapes, wantBoundaries := thorough && !w.Secondary, thorough
 			if thorough && w.Secondary {
 				// a fixture that repeats fields under other context selectors: the single bytes and classic combinations
 				payloads = corePayloads[:48]
@@ -987,7 +1029,7 @@ func runJob(e *env, fi int, fx Fixture, plus bool, rng *vh.Rng, thorough bool, b
 				fieldInstances[ck]++
 				switch {
 				case fieldInstances[nf] == 1 && !w.Secondary:
-					wantShapes = true
+					wantShapes, wantBoundaries = true, true
 					payloads = append([]string(nil), corePayloads[:41]...)
 					for _, p := range corePayloads[41:] {
 						if lr.Chance(1, 6) {
@@ -999,7 +1041,7 @@ func runJob(e *env, fi int, fx Fixture, plus bool, rng *vh.Rng, thorough bool, b
 					// upstream type, path-regex value, ...): another validator or rendering site may apply
 					payloads = contextPayloads
 					lite = true
-					wantShapes = true
+					wantBoundaries = true
 				default:
 					payloads = nil
 					for k := 0; k < 5; k++ {
@@ -1018,8 +1060,10 @@ func runJob(e *env, fi int, fx Fixture, plus bool, rng *vh.Rng, thorough bool, b
 			// other accepted shapes of this field (first instance of the field, or of the field in a new context)
 			bases := []string{l.Value}
 			var bpayloads []string
+			if wantBoundaries || wantShapes {
+				bpayloads = boundaryPayloads
+			}
 			if wantShapes {
-				bpayloads = contextPayloads
 				var acc []string
 				n, nacc := 0, 0
 				for _, fam := range shapePool {
@@ -1038,12 +1082,9 @@ func runJob(e *env, fi int, fx Fixture, plus bool, rng *vh.Rng, thorough bool, b
 						}
 					}
 				}
-				if nacc*2 <= n || len(acc) <= 6 {
+				if nacc*2 <= n {
 					bases = append(bases, acc...)
-				} else {
-					// the field accepts most shapes: free text, its own value is as good a base as any
-					bases = append(bases, acc[:3]...)
-				}
+				} // else: the field accepts most shapes, it is free text: its own value is as good a base as any
 				st.ShapesAccepted += len(bases) - 1
 			}
 			hcache := map[string]*Render{}
@@ -1360,6 +1401,7 @@ func main() {
 	for _, r := range selectorRecords(envs[false]) {
 		out.Emit(r)
 	}
+	out.Emit(genPathRecord())
 	// a bounded, seed-dependent sample of the membership verdicts (all negative ones, up to 1200 positive ones)
 	var keys []string
 	for k := range classPool {
